@@ -10,14 +10,14 @@ LEVEL = 'exploration'
 RULE = ('Inputs: the suite\'s fixture documents and small generated documents of every selectable map, each under 1-4 stacked structural mutations '
         '(delete/duplicate/swap/move/retag, orphan trailers, dropped trailers/headers, non-numeric/empty/missing counts and control numbers, HL/LX renumbering, '
         'element surgery incl. >8 KiB and >16 KiB segments, extra elements/components, acknowledgement delimiters and markup canaries in data, truncation at any '
-        'character, empty and blank segments), some re-encoded with other delimiters, plus arbitrary strings (empty, short, ISA-only, bad version, printable noise, '
+        'character, empty and blank segments), some re-encoded with other delimiters, plus envelope soups (a well-formed ISA followed by 3-16 header, trailer and body segments in arbitrary order, ids and counts from small pools) and arbitrary strings (empty, short, ISA-only, bad version, printable noise, '
         'X12-shaped noise). Each input runs through x12n_document under a subset of {997, HTML, XML} sinks x charset {B,E} (all 16 combinations covered), through '
         'plain X12Reader iteration + cleanup(), and through X12ContextReader.iter_segments for loop id None and two map loop ids. Allowed outcomes: a bool; X12Error; '
         'EngineError "Map not found". Anything else that escapes, or exceeding the logical step budget, is a violation keyed <Exception>@<innermost pyx12 function>. '
         'non-trivial = distinct mutated inputs that still begin with a well-formed ISA.')
 ASSUMPTIONS = ['path-based sources are not used here (C01/C20 cover them); sinks are StringIO',
                'the step budget is 2e6 + 2000*len(text) Python function entries per run (deterministic); the wall-clock watchdog only yields inconclusive']
-REQUIRED_COUNTERS = ['runs:x12n_document', 'runs:reader', 'runs:context', 'outcome:bool', 'outcome:refused', 'inputs:mutated', 'inputs:fuzz', 'sinks:ack+html+xml', 'sinks:none']
+REQUIRED_COUNTERS = ['runs:x12n_document', 'runs:reader', 'runs:context', 'outcome:bool', 'outcome:refused', 'inputs:mutated', 'inputs:fuzz', 'inputs:envelope-soup', 'sinks:ack+html+xml', 'sinks:none']
 MIN_CASES = {'quick': 1200, 'thorough': 40000}
 WATCHDOG_S = {'quick': 1200, 'thorough': 7200}
 
@@ -150,7 +150,11 @@ def run(ctx):
     for k in range(per):
         rng = ctx.sub_rng('c07', ctx.shard, k)
         r = rng.random()
-        if r < 0.12:
+        if r >= 0.88:
+            text = mutate.envelope_soup(rng)
+            case = {'envelope_soup': True, 'gen': ['c07', ctx.shard, k], 'text': text}
+            ctx.count('inputs:envelope-soup')
+        elif r < 0.12:
             text, kind = mutate.fuzz_string(rng)
             case = {'fuzz': kind, 'gen': ['c07', ctx.shard, k], 'text': text[:3000]}
             ctx.count('inputs:fuzz')
